@@ -666,9 +666,54 @@ Fixpoint check_steps (sch : schema) (steps : list sexp) (acc : list string) : se
       end
   end.
 
+(** *** NewSchema cases: a schema definition and whether the real NewSchema returned an error *)
+Definition dec_rel_kind (s : sexp) : option rel_kind :=
+  if sym_is "nil" s then Some RKNone
+  else if sym_is "lib" s then Some (RKLib true)
+  else if sym_is "lib-no-resolve" s then Some (RKLib false)
+  else if sym_is "custom" s then Some RKCustom
+  else None.
+Definition dec_type_def (s : sexp) : option type_def :=
+  match tagged "td" s with
+  | Some [n; SL attrs; SL rels] =>
+      do nb <- as_bytes n;
+      do az <- map_opt (fun e => match e with
+                                 | SL [k; ok] => do kb <- as_bytes k; do okb <- as_bool ok; Some (kb, okb)
+                                 | _ => None
+                                 end) attrs;
+      do rz <- map_opt (fun e => match e with
+                                 | SL [k; kind] => do kb <- as_bytes k; do kd <- dec_rel_kind kind; Some (kb, kd)
+                                 | _ => None
+                                 end) rels;
+      Some {| td_name := nb; td_attrs := az; td_rels := rz |}
+  | _ => None
+  end.
+(** the first reason (in list order) a definition is refused: an evidence class only *)
+Definition refusal_class (d : list type_def) : string :=
+  if negb (forallb (fun t => member_name_ok (td_name t)) d) then "refused-type-name"
+  else if existsb (fun t => existsb (fun a => reserved_name (fst a)) (td_attrs t) || existsb (fun r => reserved_name (fst r)) (td_rels t)) d
+       then "refused-reserved-name"
+  else if existsb (fun t => existsb (fun a => existsb (fun r => bytes_eqb (fst r) (fst a)) (td_rels t)) (td_attrs t)) d
+       then "refused-attribute-is-relationship"
+  else if existsb (fun t => negb (forallb (fun a => member_name_ok (fst a)) (td_attrs t) && forallb (fun r => member_name_ok (fst r)) (td_rels t))) d
+       then "refused-member-name"
+  else "refused-no-resolver".
+Definition check_new_schema (defs : list sexp) (acc : sexp) : sexp :=
+  match map_opt dec_type_def defs, as_bool acc with
+  | Some d, Some accepted =>
+      if Bool.eqb (new_schema_ok d) accepted then
+        v_ok (if accepted then ["new-schema"; "schema-accepted"] else ["new-schema"; "schema-refused"; refusal_class d])
+      else if accepted then v_oracle_fail "schema-accepted-although-invalid" []
+      else v_mismatch "schema-refused" []
+  | _, _ => v_bad "decode-newschema"
+  end.
+
 Definition check (c : sexp) : sexp :=
   match tagged "case" c with
   | Some l =>
+      match field "newschema" l, field1 "accepted" l with
+      | Some defs, Some acc => check_new_schema defs acc
+      | _, _ =>
       match field "schema" l with
       | Some ts =>
           match map_opt dec_rtype ts with
@@ -688,6 +733,7 @@ Definition check (c : sexp) : sexp :=
           | None => v_bad "decode-schema"
           end
       | None => v_bad "fields"
+      end
       end
   | None => v_bad "shape"
   end.
